@@ -557,7 +557,7 @@ func checkC03(c *Ctx) {
 	c3Equals(c, byType)
 	c.Rule("R3.11", "the pooled wrappers that carry a field's value to the encoder (error elements, buffers, encoders) are never touched after their release (a write into a wrapper the pool has handed on replaces another call's value)", 8)
 	c8UseAfterRelease(c, "R3.11", c8ReleaseFns(c))
-	c.Rule("R3.10", "payloads that Field.Equals compares with reflect.DeepEqual are never functions (DeepEqual of non-nil functions is false: such a field would not equal itself)", 10)
+	c.Rule("R3.10", "payloads that Field.Equals compares with reflect.DeepEqual are never functions (DeepEqual of non-nil functions is false: such a field would not equal itself)", 6)
 	c3NoFuncPayload(c, "R3.10", byType)
 	c3NilPlaceholder(c)
 	c.Rule("R3.9", "float payloads are unpacked as bit patterns: Float64frombits/Float32frombits of the Integer slot, no float-to-float conversion on the way", 2)
@@ -1513,17 +1513,40 @@ func c3Slices(c *Ctx) {
 			continue
 		}
 		fn := c.SSA.FuncValue(fo)
-		for k, r := range Returns(fn) {
-			call, isCall := Strip(RetVals(r)[0]).(*ssa.Call)
-			ok := isCall && IsCallTo(call, "go.uber.org/zap.Array") && call.Call.Args[0] == ssa.Value(fn.Params[0])
-			if ok {
-				mi, isMI := call.Call.Args[1].(*ssa.MakeInterface)
-				ok = isMI
-				if isMI {
-					ct, isCT := mi.X.(*ssa.ChangeType)
-					ok = isCT && ct.X == ssa.Value(fn.Params[1])
-				}
+		// wraps(f, key, vals): every return of f is Array(key, <named slice type>(vals)), directly or through a
+		// (generic) helper of the module that is handed key and vals and does just that
+		var wraps func(f *ssa.Function, v ssa.Value, key, vals ssa.Value, d int) bool
+		wraps = func(f *ssa.Function, v ssa.Value, key, vals ssa.Value, d int) bool {
+			call, isCall := Strip(v).(*ssa.Call)
+			if !isCall || d > 2 {
+				return false
 			}
+			if IsCallTo(call, "go.uber.org/zap.Array") {
+				if call.Call.Args[0] != key {
+					return false
+				}
+				mi, isMI := call.Call.Args[1].(*ssa.MakeInterface)
+				if !isMI {
+					return false
+				}
+				ct, isCT := mi.X.(*ssa.ChangeType)
+				return isCT && ct.X == vals
+			}
+			h := call.Call.StaticCallee()
+			if h == nil || len(h.Blocks) == 0 || !curProgRoot(h) || len(h.Params) != 2 || len(call.Call.Args) != 2 || call.Call.Args[0] != key || call.Call.Args[1] != vals {
+				return false
+			}
+			n := 0
+			for _, hr := range Returns(h) {
+				if !wraps(h, RetVals(hr)[0], h.Params[0], h.Params[1], d+1) {
+					return false
+				}
+				n++
+			}
+			return n > 0
+		}
+		for k, r := range Returns(fn) {
+			ok := wraps(fn, RetVals(r)[0], fn.Params[0], fn.Params[1], 0)
 			c.Check(ok, "R3.4", FStr(fn), "wraps-parameter#"+itoa(k+1), r.Pos(), "returns Array(key, <named slice type>(param)): the slice itself, no copy, no element conversion (%s)", Desc(RetVals(r)[0]))
 		}
 	}
